@@ -418,7 +418,7 @@ func init() {
 	register(&vf.Check{
 		ID:        "C16",
 		Technique: "runtime monitor: strict independent RFC 6455 parser over all bytes accepted by a scripted transport under a real Stream, compared with the list of submissions after every write",
-		Rule: "cases = sequences of 1-40 writes: Write/AsyncWrite of text/binary (sizes {0,1,125,126,127,200,65535,65536,max,random}), oversize messages, caller-built frames from AcquireFrame with and without SetPayload (text, binary, ping, pong), automatic Pongs for peer Pings, a final Close; transports accepting all/1/3/7/100 bytes per write, inline or deferred, temporarily unwritable; max in {125,1000,70000,default}; " +
+		Rule: "cases = sequences of 1-40 writes: Write/AsyncWrite of text/binary (sizes {0,1,125,126,127,200,within 16 bytes of 4096..32768,65535,65536,max,random}), oversize messages, caller-built frames from AcquireFrame with and without SetPayload (text, binary, ping, pong), automatic Pongs for peer Pings, a final Close; transports accepting all/1/3/7/100 bytes per write, inline or deferred, temporarily unwritable (a second write-type call - AsyncWrite, AsyncWriteFrame, AsyncClose - a read or a flush is issued while the first write is held, and a third one during the chain's second transport write); synchronous would-block in the middle of a frame; max in {125,1000,5000,70000,default}; " +
 			"non-trivial = a pooled frame reused for a shorter payload after a longer one, a payload-less caller-built frame, or a partial-write transport; distinct = (max, write behaviour, submission shape)",
 		Assumptions: []string{
 			"one application write at a time (overlapping writes belong to C17); a read or flush may be started while a write is held by the transport",
